@@ -1,14 +1,15 @@
 ----------------------------- MODULE TraceAll -----------------------------
 (* The full-size trace specification: one disjunct per domain of events. *)
-EXTENDS TraceField, TraceScalar, Params
+EXTENDS TraceField, TraceScalar, TraceEdwards, Params
 
 MetaOps == {"info", "reset", "force_backend"}
 MetaStep == /\ l <= Len(Rec) /\ Rec[l].op \in MetaOps
             /\ Note(NoPanic(Rec[l]), Rec[l], "panic")
             /\ l' = l + 1
+            /\ (IF Rec[l].op = "reset" THEN regs' = <<>> ELSE UNCHANGED regs)
 
 Init == BaseInit
-Next == MetaStep \/ FieldStep \/ ScalarStep
-vars == <<l, bad>>
+Next == MetaStep \/ FieldStep \/ ScalarStep \/ EdStep
+vars == <<l, bad, regs>>
 Spec == Init /\ [][Next]_vars
 =============================================================================
